@@ -10,3 +10,11 @@ static void PosThing_Dealloc(var self) {
 }
 
 var PosThing = Cello(PosThing, Instance(Alloc, NULL, PosThing_Dealloc));
+
+/* Positive example for C19.header-written-only-at-creation: a clone that byte-copies the
+ * source's header (type, allocation class, magic) onto a fresh heap block. */
+var PosThing_Clone(var self) {
+  var type = type_of(self);
+  return (char*)memcpy(header(alloc(type)), header(self),
+    sizeof(struct Header) + size(type)) + sizeof(struct Header);
+}
